@@ -176,6 +176,60 @@ fn p_int_result() {
     kani::cover!(ov == 1 && (wv as i32) < 0, "negative error code");
     kani::cover!(ov == 0, "ok");
 }
+//@ prefix=p_npo kind=property clause=forwarded (null-pointer-optimised) options — Option<NonZeroU32>, Option<&mut T> in / Option<&T> out, Option<extern "C" fn> — and Result<(),E>: variant, payload and address arrive and return unchanged; writes through Option<&mut T> are visible
+extern "C" fn twice(x: u32) -> u32 { x.wrapping_mul(2) }
+#[kani::proof]
+fn p_npo_shapes() {
+    let mut rec = rec0();
+    let (ov, op, wv) = (rec.out_variant, rec.out_payload, rec.wval);
+    let which: u8 = kani::any();
+    kani::assume(which < 4);
+    let some: bool = kani::any();
+    let v: u32 = kani::any();
+    let mut cell: u64 = kani::any();
+    let cell0 = cell;
+    let i = imp(&mut rec);
+    let icell = i.cell;
+    let icellp = &i.cell as *const u64 as usize;
+    let obj = trait_obj!(&i as Shapes2);
+    match which {
+        0 => {
+            let nz = core::num::NonZeroU32::new(v | 1);
+            let r = obj.npo_nonzero(if some { nz } else { None });
+            assert!(rec.variant == some as u8 && (!some || rec.payload == (v | 1) as u64), "C02 Option<NonZeroU32> arrives with the same variant and payload");
+            assert!(r.map(|x| x.get()) == if ov == 1 { Some(op as u32 | 1) } else { None }, "C02 Option<NonZeroU32> result returns unchanged");
+        }
+        1 => {
+            if kani::any() {
+                obj.npo_mut(if some { Some(&mut cell) } else { None });
+                assert!(rec.variant == some as u8, "C02 Option<&mut T> arrives with the same variant");
+            } else {
+                let r = obj.npo_ref_out();
+                assert!((r.is_some()) == (ov == 1), "C02 Option<&T> result keeps its variant");
+                if let Some(p) = r { assert!(p as *const u64 as usize == icellp && *p == icell, "C02 returned Option<&T> points at the implementor's value"); }
+                kani::assume(!some);
+            }
+            if some { assert!(rec.ptr == &cell as *const u64 as usize && rec.payload == cell0 && cell == wv, "C02 Option<&mut T> points at the caller's value and the callee's write is visible"); }
+            else { assert!(cell == cell0, "C02 nothing written without a reference"); }
+        }
+        2 => {
+            let r = obj.npo_fn(if some { Some(twice) } else { None }, v);
+            assert!(rec.variant == some as u8 && (!some || rec.ptr == twice as usize), "C02 Option<extern fn> arrives with the same variant and address");
+            assert!(r == if some { v.wrapping_mul(2) } else { v }, "C02 the function pointer that arrived is the one that was sent");
+        }
+        _ => {
+            let e: u8 = kani::any();
+            let r = obj.res_unit(if some { Ok(()) } else { Err(e) });
+            assert!(rec.variant == !some as u8 && (some || rec.payload == e as u64), "C02 Result<(),E> arrives unchanged");
+            assert!(r == if ov == 0 { Ok(()) } else { Err(op as u8) }, "C02 Result<(),E> returns unchanged");
+        }
+    }
+    drop(obj);
+    core::mem::forget(i);
+    assert!(rec.calls == 1 && rec.tag == 23 + which as u32, "C02 exactly one call of the right method");
+    kani::cover!(which == 1 && some && ov == 1, "mut ref in, ref out");
+    kani::cover!(which == 2 && some, "fn pointer");
+}
 //@ prefix=p_val kind=property clause=impl Into<T>, by-value C struct, extreme integers: values arrive and return unchanged
 #[kani::proof]
 fn p_val_shapes() {
